@@ -91,7 +91,7 @@ type C16Req struct {
 	Codec    string    `json:"codec"` // json | xml
 	Val      EntityVal `json:"val"`
 	Pretty   bool      `json:"pretty"`
-	CTForm   int       `json:"ct_form"`  // 0 T, 1 "T; charset=utf-8", 2 "T ;charset=UTF-8", 3 absent + default
+	CTForm   int       `json:"ct_form"`  // 0 T, 1 "T; charset=utf-8", 2 "T ;charset=UTF-8", 3 absent + default, 4 T; charset="utf-8" (quoted)
 	Encoding string    `json:"encoding"` // "", gzip, deflate
 	Members  int       `json:"members"`  // gzip members (RFC 1952 allows several)
 	Damage   string    `json:"damage"`   // "", trunc_header, trunc_stream, trunc_trailer, bitflip, garbage, syntax
@@ -263,7 +263,7 @@ func genC16(t *rapid.T) C16Case {
 		r := C16Req{Codec: rapid.SampledFrom([]string{"json", "xml"}).Draw(t, "codec")}
 		r.Val = genEntityVal(t, r.Codec)
 		r.Pretty = rapid.Bool().Draw(t, "pretty")
-		r.CTForm = rapid.IntRange(0, 3).Draw(t, "ctform")
+		r.CTForm = rapid.IntRange(0, 4).Draw(t, "ctform")
 		r.Encoding = rapid.SampledFrom([]string{"", "gzip", "gzip", "deflate"}).Draw(t, "encoding")
 		r.Members = rapid.SampledFrom([]int{1, 1, 1, 2, 3}).Draw(t, "members")
 		r.Lvl = rapid.SampledFrom([]int{0, 0, 0, 1, 3, 4, 5, 6, 8, 9, 12}).Draw(t, "level")
@@ -484,6 +484,8 @@ func checkC16(c C16Case) (vs []*Violation) {
 			q.Headers = append(q.Headers, model.H{K: "Content-Type", V: mime + "; charset=utf-8"})
 		case 2:
 			q.Headers = append(q.Headers, model.H{K: "Content-Type", V: mime + " ;charset=UTF-8"})
+		case 4: // a parameter value may be a quoted-string (RFC 7231 3.1.1.1); it says the same
+			q.Headers = append(q.Headers, model.H{K: "Content-Type", V: mime + `; charset="utf-8"`})
 		default:
 			restful.DefaultRequestContentType(mime)
 		}
